@@ -378,6 +378,199 @@ func genMatchBytes(r *rand.Rand, n int, out *bufio.Writer) {
 	}
 }
 
+// ---- C20: random keys / values (arbitrary bytes, numeric edge cases), longer op sequences
+var numEdge = []string{"", "0", "-0", "+5", "9223372036854775807", "9223372036854775808", "-9223372036854775808", "-9223372036854775809", "18446744073709551615",
+	"18446744073709551616", "1e309", "-1e309", "1e-400", "NaN", "nan", "Inf", "-inf", "true", "T", "f", "FALSE", "0x1f", "0b1", "1_000", " 1", "1 ", "1.5", "٣", "1e5", ".5", "5."}
+
+func genParams(r *rand.Rand, n int, out *bufio.Writer) {
+	for ci := 0; ci < n; ci++ {
+		keys := []string{"", "k1", "k2", randBytes(r, 4), "键"}
+		val := func() string {
+			switch r.IntN(4) {
+			case 0:
+				return randBytes(r, 8)
+			case 1:
+				return fmt.Sprint(r.Int64() - r.Int64())
+			}
+			return numEdge[r.IntN(len(numEdge))]
+		}
+		ops := []map[string]any{}
+		for s := 0; s < 6+r.IntN(8); s++ {
+			k := keys[r.IntN(len(keys))]
+			switch r.IntN(10) {
+			case 0:
+				ops = append(ops, map[string]any{"op": "reset"})
+			case 1, 2:
+				ops = append(ops, map[string]any{"op": "recycle"})
+			case 3, 4:
+				ops = append(ops, map[string]any{"op": "del", "key": l1enc(k)})
+			default:
+				ops = append(ops, map[string]any{"op": "set", "key": l1enc(k), "val": l1enc(val())})
+			}
+		}
+		ks := make([]string, len(keys))
+		for i, k := range keys {
+			ks[i] = l1enc(k)
+		}
+		c := map[string]any{"fam": "params", "id": fmt.Sprintf("gpar:%d", ci), "ops": ops, "keys": ks}
+		b, _ := json.Marshal(c)
+		out.Write(b)
+		out.WriteByte('\n')
+	}
+}
+
+// ---- C08: long random handler programs
+func genHead(r *rand.Rand, n int, out *bufio.Writer) {
+	keys := []string{"X-A", "X-B", "Content-Type", "Cache-Control", "Content-Length"}
+	codes := []int{200, 201, 202, 400, 404, 500}
+	for ci := 0; ci < n; ci++ {
+		ops := []map[string]any{}
+		for k := 0; k < 20; k++ {
+			prog := []map[string]any{}
+			for s := 0; s < 3+r.IntN(10); s++ {
+				switch r.IntN(6) {
+				case 0:
+					prog = append(prog, map[string]any{"k": "wh", "a": "", "b": "", "n": codes[r.IntN(len(codes))]})
+				case 1, 2:
+					prog = append(prog, map[string]any{"k": "w", "a": "", "b": "", "n": []int{0, 1, 3, 100, 5000}[r.IntN(5)]})
+				default:
+					prog = append(prog, map[string]any{"k": "set", "a": keys[r.IntN(len(keys))], "b": fmt.Sprint(r.IntN(4)), "n": 0})
+				}
+			}
+			ops = append(ops, map[string]any{"op": "prog", "prog": prog})
+		}
+		c := map[string]any{"fam": "head", "id": fmt.Sprintf("ghead:%d", ci), "ops": ops}
+		b, _ := json.Marshal(c)
+		out.Write(b)
+		out.WriteByte('\n')
+	}
+}
+
+// ---- C11 / C12: random configurations x requests with random case and spacing
+func randCase(r *rand.Rand, s string) string {
+	b := []byte(s)
+	for i := range b {
+		if r.IntN(2) == 0 {
+			if b[i] >= 'a' && b[i] <= 'z' {
+				b[i] -= 32
+			} else if b[i] >= 'A' && b[i] <= 'Z' {
+				b[i] += 32
+			}
+		}
+	}
+	return string(b)
+}
+
+func genCors(r *rand.Rand, n int, out *bufio.Writer) {
+	origins := []string{"https://o1.example", "https://o2.example", "http://o1.example", "null", "*"}
+	hnames := []string{"Content-Type", "X-A", "X-Token", "Authorization", "*"}
+	pick := func(pool []string, max int) []string {
+		k := r.IntN(max + 1)
+		out := []string{}
+		for i := 0; i < k; i++ {
+			out = append(out, pool[r.IntN(len(pool))])
+		}
+		return out
+	}
+	sp := func() string { return []string{"", " ", "  ", "\t"}[r.IntN(4)] }
+	for ci := 0; ci < n; ci++ {
+		cors := map[string]any{"on": true, "origins": pick(origins, 3), "allow": pick(hnames, 3), "expose": pick([]string{"E1", "E2", "X-Rate"}, 2),
+			"maxage": []int{0, -1, -2, 50, 86400}[r.IntN(5)], "cred": r.IntN(3) == 0}
+		cfg := map[string]any{"name": "r", "trace": false, "icpt": map[string]string{}, "domain": "", "cors": cors}
+		ops := []map[string]any{
+			{"op": "handle", "pat": "/a", "methods": []string{"GET", "POST"}, "mws": []string{}, "chain": []any{}, "res": false},
+			{"op": "handle", "pat": "/b/{id}", "methods": []string{"DELETE"}, "mws": []string{}, "chain": []any{}, "res": false},
+		}
+		reqs := []map[string]any{}
+		for k := 0; k < 60; k++ {
+			hdr := map[string]string{}
+			if r.IntN(5) > 0 {
+				o := origins[r.IntN(4)]
+				if r.IntN(6) == 0 {
+					o = randCase(r, o)
+				}
+				if r.IntN(8) == 0 {
+					o = "https://evil.example"
+				}
+				hdr["Origin"] = o
+			}
+			if r.IntN(2) == 0 {
+				m := []string{"GET", "POST", "DELETE", "PUT", "post", "HEAD", "OPTIONS"}[r.IntN(7)]
+				hdr["Access-Control-Request-Method"] = m
+			}
+			if r.IntN(2) == 0 {
+				k := 1 + r.IntN(3)
+				parts := []string{}
+				for i := 0; i < k; i++ {
+					h := hnames[r.IntN(4)]
+					switch r.IntN(8) {
+					case 0:
+						h = "X-Evil"
+					case 1:
+						h = h[:1+r.IntN(len(h))]
+					}
+					parts = append(parts, sp()+randCase(r, h)+sp())
+				}
+				hdr["Access-Control-Request-Headers"] = strings.Join(parts, ",")
+			}
+			reqs = append(reqs, map[string]any{"op": "req", "method": []string{"GET", "POST", "OPTIONS", "OPTIONS", "DELETE", "HEAD", "PUT"}[r.IntN(7)],
+				"path": []string{"/a", "/b/7", "/missing", "*", "/a"}[r.IntN(5)], "hdr": hdr})
+		}
+		c := map[string]any{"fam": "router", "id": fmt.Sprintf("gcors:%d", ci), "cfg": cfg, "ops": ops, "reqs": reqs, "battery": "none"}
+		b, _ := json.Marshal(c)
+		out.Write(b)
+		out.WriteByte('\n')
+	}
+}
+
+// ---- C05 / C13: arbitrary Host / path / Accept bytes through Group.ServeHTTP
+func genGroupBytes(r *rand.Rand, n int, out *bufio.Writer) {
+	rc := func(name string) map[string]any {
+		return map[string]any{"name": name, "trace": false, "lock": false, "icpt": gIcpt, "domain": "", "recovery": false}
+	}
+	hosts := func(ds ...string) map[string]any { return map[string]any{"t": "hosts", "domains": ds} }
+	pv := func(vs ...string) map[string]any { return map[string]any{"t": "pathver", "param": "ver", "versions": vs} }
+	hv := func(vs ...string) map[string]any {
+		return map[string]any{"t": "headerver", "param": "hv", "key": "version", "versions": vs}
+	}
+	and := func(ms ...any) map[string]any { return map[string]any{"t": "and", "ms": ms} }
+	or := func(ms ...any) map[string]any { return map[string]any{"t": "or", "ms": ms} }
+	ms := []any{hosts("a.com"), hosts("{sub}.b.com", "c.com"), pv("v1", "v11"), hv("v2"), and(pv("v1"), hosts("a.com")), or(and(hv("v2"), hosts("a.com")), pv("v2")), map[string]any{"t": "nil"}}
+	for ci := 0; ci < n; ci++ {
+		ops := []map[string]any{}
+		names := []string{"r1", "r2", "r3"}
+		for i, nm := range names {
+			ops = append(ops, map[string]any{"op": "gnew", "inst": nm, "m": ms[(ci+i*3+r.IntN(3))%len(ms)], "cfg": rc(nm)})
+			ops = append(ops, map[string]any{"op": "handle", "inst": nm, "pat": "/x", "methods": []string{"GET"}, "mws": []string{}})
+			ops = append(ops, map[string]any{"op": "handle", "inst": nm, "pat": "/{rest}", "methods": []string{"GET"}, "mws": []string{}})
+		}
+		reqs := []map[string]any{}
+		for k := 0; k < 40; k++ {
+			h := []string{"a.com", "s.b.com", "A.COM:80", "c.com", "[::1]"}[r.IntN(5)]
+			p := []string{"/v1/x", "/v11/x", "/x", "/v2/7q", "/v1"}[r.IntN(5)]
+			a := []string{"", "application/json; version=v2", "text/html"}[r.IntN(3)]
+			switch r.IntN(4) {
+			case 0:
+				h = mutatePath(r, h, true)
+			case 1:
+				p = mutatePath(r, p, true)
+			case 2:
+				a = mutatePath(r, a, true)
+			}
+			hdr := map[string]string{}
+			if a != "" {
+				hdr["Accept"] = l1enc(a)
+			}
+			reqs = append(reqs, map[string]any{"op": "gserve", "inst": "", "method": []string{"GET", "POST", "OPTIONS", randBytes(r, 3)}[r.IntN(4)],
+				"path": l1enc(p), "host": l1enc(h), "hdr": hdr, "faults": map[string]string{}})
+		}
+		c := map[string]any{"fam": "group", "id": fmt.Sprintf("ggb:%d", ci), "cfg": map[string]any{"recovery": false, "name": "g"}, "ops": ops, "reqs": reqs}
+		b, _ := json.Marshal(c)
+		out.Write(b)
+		out.WriteByte('\n')
+	}
+}
+
 func cmdGen(args []string) {
 	fs := flag.NewFlagSet("gen", flag.ExitOnError)
 	fam := fs.String("fam", "router", "")
@@ -406,6 +599,14 @@ func cmdGen(args []string) {
 		}
 	case "match":
 		genMatchBytes(r, *n, out)
+	case "params":
+		genParams(r, *n, out)
+	case "head":
+		genHead(r, *n, out)
+	case "cors":
+		genCors(r, *n, out)
+	case "group":
+		genGroupBytes(r, *n, out)
 	default:
 		fmt.Fprintln(os.Stderr, "gen: unknown family", *fam)
 		os.Exit(2)
